@@ -20,6 +20,7 @@ pub mod c07;
 pub mod c08;
 pub mod c09;
 pub mod c12;
+pub mod c16;
 
 pub fn all() -> Vec<Prop> {
     vec![
@@ -37,5 +38,6 @@ pub fn all() -> Vec<Prop> {
         c08::prop_c13(),
         c08::prop_c14(),
         c12::prop_c15(),
+        c16::prop(),
     ]
 }
